@@ -537,7 +537,7 @@ Proof.
   set (Q := da_tag (decode_addr ib bb a) * S + da_idx (decode_addr ib bb a)) in *.
   set (Q' := da_tag (decode_addr ib bb a') * S + da_idx (decode_addr ib bb a')) in *.
   split.
-  - intros H. assert (Q = Q') by nia. subst. reflexivity.
+  - intros H. assert (E: Q = Q') by nia. rewrite E. reflexivity.
   - intros E. rewrite <- E. lia.
 Qed.
 
@@ -560,4 +560,94 @@ Proof.
   { apply (in_block_iff ib bb a (a mod 4294967296 + j) G). rewrite Hm. lia. }
   pose proof (proj2 (same_block_iff ib bb (a mod 4294967296 + j) a G) Hba) as [Et Ei].
   repeat split; try assumption; lia.
+Qed.
+
+(** * Access widths *)
+Definition okw (nbits : Z) : Prop := nbits = 8 \/ nbits = 16 \/ nbits = 32.
+Definition kof (nbits : Z) : nat := Z.to_nat (nbits / 8).
+
+Lemma okw_kof nbits : okw nbits -> nbits = 8 * Z.of_nat (kof nbits) /\ (0 < kof nbits)%nat /\
+  (kof nbits = 1 \/ kof nbits = 2 \/ kof nbits = 4)%nat.
+Proof. intros [-> | [-> | ->]]; cbv; repeat split; auto. Qed.
+
+(** * from_block / into_block against bytes *)
+Lemma from_block_in nbits da blk : okw nbits ->
+  0 <= da_byoff da -> da_byoff da + Z.of_nat (kof nbits) <= 4 ->
+  0 <= nthZ blk (da_boff da) 0 < 4294967296 ->
+  from_block nbits da blk = Ok (le_bytes (byte_of (nthZ blk (da_boff da) 0)) (da_byoff da) (kof nbits)).
+Proof.
+  intros Hw Ho Hk Hr. unfold from_block. set (w := nthZ blk (da_boff da) 0) in *.
+  set (o := da_byoff da) in *.
+  destruct Hw as [-> | [-> | ->]].
+  - change (8 =? 8) with true. cbv iota. change (kof 8) with 1%nat. f_equal.
+    rewrite extract8 by lia. cbn [le_bytes]. lia.
+  - change (16 =? 8) with false. change (16 =? 16) with true. cbv iota.
+    change (kof 16) with 2%nat in *. replace (o >? 2) with false by lia.
+    f_equal. rewrite U16_eq. change 65536 with (2 ^ (8 * Z.of_nat 2)). apply extract_le. lia.
+  - change (32 =? 8) with false. change (32 =? 16) with false. cbv iota.
+    change (kof 32) with 4%nat in *. replace (o =? 0) with true by lia. cbn [negb].
+    f_equal. replace o with 0 by lia. symmetry. apply word_bytes. exact Hr.
+Qed.
+
+Lemma from_block_cross nbits da blk : okw nbits ->
+  0 <= da_byoff da < 4 -> da_byoff da + Z.of_nat (kof nbits) > 4 ->
+  from_block nbits da blk = Err (EOffset (da_byoff da) (4 - Z.of_nat (kof nbits))).
+Proof.
+  intros Hw Ho Hk. unfold from_block. set (o := da_byoff da) in *.
+  destruct Hw as [-> | [-> | ->]].
+  - change (kof 8) with 1%nat in *. lia.
+  - change (16 =? 8) with false. change (16 =? 16) with true. cbv iota.
+    change (kof 16) with 2%nat in *. replace (o >? 2) with true by lia. reflexivity.
+  - change (32 =? 8) with false. change (32 =? 16) with false. cbv iota.
+    change (kof 32) with 4%nat in *. replace (o =? 0) with false by lia. reflexivity.
+Qed.
+
+Lemma into_block_in nbits da blk v : okw nbits ->
+  0 <= da_byoff da -> da_byoff da + Z.of_nat (kof nbits) <= 4 -> 0 <= v < 2 ^ nbits ->
+  exists w', into_block nbits da blk v = Ok (set_nthZ blk (da_boff da) w') /\
+    0 <= w' < 4294967296 /\
+    forall o', 0 <= o' < 4 ->
+      byte_of w' o' = if (da_byoff da <=? o') && (o' <? da_byoff da + Z.of_nat (kof nbits))
+                      then byte_of v (o' - da_byoff da)
+                      else byte_of (nthZ blk (da_boff da) 0) o'.
+Proof.
+  intros Hw Ho Hk Hv. unfold into_block. set (w := nthZ blk (da_boff da) 0) in *.
+  set (o := da_byoff da) in *.
+  destruct Hw as [-> | [-> | ->]].
+  - change (8 =? 8) with true. cbv iota. change (kof 8) with 1%nat in *.
+    eexists. split; [reflexivity|]. split; [apply U32_range|].
+    intros o' Ho'. change 255 with (2 ^ (8 * 1) - 1). apply merge_bytes; lia.
+  - change (16 =? 8) with false. change (16 =? 16) with true. cbv iota.
+    change (kof 16) with 2%nat in *. replace (o >? 2) with false by lia.
+    eexists. split; [reflexivity|]. split; [apply U32_range|].
+    intros o' Ho'. change 65535 with (2 ^ (8 * 2) - 1). apply merge_bytes; lia.
+  - change (32 =? 8) with false. change (32 =? 16) with false. cbv iota.
+    change (kof 32) with 4%nat in *. replace (o =? 0) with true by lia. cbn [negb].
+    exists v. split; [reflexivity|]. split; [exact Hv|].
+    intros o' Ho'. replace ((o <=? o') && (o' <? o + Z.of_nat 4)) with true by lia.
+    f_equal. lia.
+Qed.
+
+Lemma into_block_cross nbits da blk v : okw nbits ->
+  0 <= da_byoff da < 4 -> da_byoff da + Z.of_nat (kof nbits) > 4 ->
+  into_block nbits da blk v = Err (EOffset (da_byoff da) (4 - Z.of_nat (kof nbits))).
+Proof.
+  intros Hw Ho Hk. unfold into_block. set (o := da_byoff da) in *.
+  destruct Hw as [-> | [-> | ->]].
+  - change (kof 8) with 1%nat in *. lia.
+  - change (16 =? 8) with false. change (16 =? 16) with true. cbv iota.
+    change (kof 16) with 2%nat in *. replace (o >? 2) with true by lia. reflexivity.
+  - change (32 =? 8) with false. change (32 =? 16) with false. cbv iota.
+    change (kof 32) with 4%nat in *. replace (o =? 0) with false by lia. reflexivity.
+Qed.
+
+(* the write-through pre-check is exactly the cross-word test *)
+Lemma wt_precheck nbits o : okw nbits -> 0 <= o < 4 ->
+  ((nbits =? 16) && (o >? 2) = true \/ (nbits =? 32) && negb (o =? 0) = true) <->
+  o + Z.of_nat (kof nbits) > 4.
+Proof.
+  intros [-> | [-> | ->]] Ho.
+  - change (kof 8) with 1%nat. cbn. lia.
+  - change (kof 16) with 2%nat. change (16 =? 16) with true. change (16 =? 32) with false. cbn [andb]. lia.
+  - change (kof 32) with 4%nat. change (32 =? 16) with false. change (32 =? 32) with true. cbn [andb]. lia.
 Qed.
